@@ -28,7 +28,9 @@ KINDS = [
     ('ENST0001|RES-101-A-G|INDEL-55-CC-C|2', ['ENST0001'], False, False),
 ]
 # tryptic peptides with 0, 1, 2 internal cleavage sites
-PEPS = ['SSSSSSSSSR', 'SSSSKSSSSR', 'SSKSSKSSSR']
+PEPS = ['SSSSSSSSSR', 'SSSSKSSSSR', 'SSKSSKSSSR', 'SSCKDSSSSR', 'SSCKDSKSSR', 'SRRHSSDKDR']
+# missed cleavages under trypsin WITH its exceptions (CKD, DKD block the K; in RRH only the second R is blocked), as callVariant digests
+MISC = [0, 1, 2, 0, 1, 1]
 ENC = ['moPepGen.aa.VariantPeptidePool.VariantPeptidePool.filter',
        'moPepGen.aa.VariantPeptideLabel.VariantPeptideInfo.from_variant_peptide_minimal / get_transcript_ids / '
        'is_fusion / is_circ_rna / is_splice_altering',
@@ -65,7 +67,7 @@ def _run(kinds, pep_i, e1, e2, cutoff, use_expr, c1, c2, denied, keep_canon, kee
                       coding_transcripts=coding, keep_all_noncoding=keep_non, keep_all_coding=keep_cod,
                       enzyme='trypsin', miscleavage_range=rng,
                       denylist={Seq(seq)} if denied else {Seq('AAAA')}, keep_canonical=keep_canon)
-    misc = pep_i
+    misc = MISC[pep_i]
     in_range = (not lo_kind or misc >= lo) and (not hi_kind or misc <= hi)
     want = [labels[i] for i, k in enumerate(kinds)
             if _rule(k, e1, e2, cutoff, use_expr, c1, c2, denied, keep_canon, keep_cod, keep_non)]
@@ -206,6 +208,22 @@ def c19_miscleavage_range(pep_i: int, lo_kind: bool, lo: int, hi_kind: bool, hi:
     """
     return _run([0], pep_i, e1, 0, cutoff, use_expr, True, False, False, False, False, False,
                 lo_kind, lo, hi_kind, hi)
+
+
+@cond('C19', bounds='miscleavage range on peptides holding trypsin exception motifs (CKD, CKD + one real missed site, '
+      'RRH + DKD): the count is taken under the trypsin exceptions; each bound None or an unbounded integer',
+      encodes=ENC, codes=CODES, shim=True, timeout=300)
+def c19_miscleavage_exception(pep_k: int, lo_kind: bool, lo: int, hi_kind: bool, hi: int, e1: int,
+                              cutoff: int, use_expr: bool) -> int:
+    """
+    pre: 0 <= pep_k <= 2
+    post: _ >= 0
+    """
+    for v in range(3):
+        if pep_k == v:
+            return _run([0], 3 + v, e1, 0, cutoff, use_expr, True, False, False, False, False, False,
+                        lo_kind, lo, hi_kind, hi)
+    return SKIP
 
 
 @cond('C19', bounds='two header entries (SNV on ENST0001 + fusion ENST0001/ENST0002, and circRNA + novel ORF): '
